@@ -434,6 +434,12 @@ func (u *Unpub) DeleteAll(ops []*operation.AnchoredOperation) error {
 
 // Get returns the unpublished operations of a suffix.
 func (u *Unpub) Get(suffix string) ([]*operation.AnchoredOperation, error) {
+	// a scheduling point of its own: a resolution reads two stores, and the observer may move an operation from one to
+	// the other between the two reads
+	if u.Label != "" {
+		u.K.Yield(u.Label + ".Get")
+	}
+
 	list := u.Ops[suffix]
 	if len(list) == 0 {
 		return nil, errors.New("not found")
